@@ -270,6 +270,10 @@ WATCH_KEYS = {
     "5": {"path": 1, "filter": ["FileCreatedEvent", "FileModifiedEvent"]},   # the same filter in another order: the same as 4
     "6": {"path": 2},
     "7": {"path": 1, "filter": []},                                          # an EMPTY filter is a filter, not "no filter"
+    "8": {"path": 1, "follow_symlink": True},                                # follow_symlink is no part of the identity: = 1
+    "9": {"path": 1, "filter": ["FileSystemEvent"]},                         # a base class as filter: another watch; every
+                                                                             # event of the emitter is an instance of it
+    "10": {"path": 1, "spell": "bytes"},                                     # the same directory given as bytes: another watch
 }
 
 
@@ -278,9 +282,9 @@ def fam_watch_keys(maxlen):
     harness logs every call under the watch it denotes, so the reference map has four keys; the probe after every call
     shows whether the observer agrees (one emitter per watch, routes equal to the map, unscheduling one spelling
     unschedules the watch and no other)."""
-    ops_all = ([["schedule", 1, w] for w in (1, 2, 3, 4, 5, 6, 7)] + [["schedule", 2, w] for w in (2, 5)] +
-               [["unschedule", w] for w in (1, 2, 3, 4, 5, 7)] + [["remove", 1, w] for w in (2, 5)] + [["start"]])
-    canon = {1: 1, 2: 1, 3: 3, 4: 4, 5: 4, 6: 6, 7: 7}
+    ops_all = ([["schedule", 1, w] for w in (1, 2, 3, 4, 5, 6, 7, 8, 9, 10)] + [["schedule", 2, w] for w in (2, 5, 8)] +
+               [["unschedule", w] for w in (1, 2, 3, 4, 5, 7, 8, 9, 10)] + [["remove", 1, w] for w in (2, 5)] + [["start"]])
+    canon = {1: 1, 2: 1, 3: 3, 4: 4, 5: 4, 6: 6, 7: 7, 8: 1, 9: 9, 10: 10}
     out = []
     for L in range(2, maxlen + 1):
         for seq in itertools.product(ops_all, repeat=L):
@@ -313,7 +317,7 @@ def fam_watch_keys(maxlen):
             for op in seq:
                 ops += [op, ["probe"]]
             tail = [["await"], ["probe"], ["stop"], ["join"]] if started else []
-            out.append({"threads": {"app1": ops + tail}, "emit": {"1": [1], "3": [1], "4": [1], "6": [1], "7": [1]}, "wspec": WATCH_KEYS})
+            out.append({"threads": {"app1": ops + tail}, "emit": {"1": [1, 1], "3": [1], "4": [1], "6": [1], "9": [1, 2], "10": [1]}, "wspec": WATCH_KEYS})
     return out
 
 
